@@ -6,7 +6,7 @@ from n0v import coqlit as L
 
 KEYS = ["a", "b", "c", "k1", "é", "Z", "id", "f"]
 # legal keys that look like something else to a careless tokenizer: punctuation, digits only, a signed number
-ODD_KEYS = ["line-item", "ns:tag", "$r", "@x", "2024", "0", "-1", "x.y", "#y"]
+ODD_KEYS = ["line-item", "ns:tag", "$r", "@x", "2024", "0", "-1", "x.y", "#y", ".", "Up", "Item"]
 STRS = ["", "x", "B", "a b", "1", "é", "xy", "2"]
 
 
